@@ -245,3 +245,12 @@ mod tests {
         Ok(())
     }
 }
+
+// Accessors for verification harnesses (compiled only with --cfg sux_verif)
+#[cfg(sux_verif)]
+impl<W: ZeroCopy + Word, F> VFilter<W, F> {
+    /// Returns (underlying function, filter mask, hash bits).
+    pub fn verif_parts(&self) -> (&F, W, u32) {
+        (&self.func, self.filter_mask, self.hash_bits)
+    }
+}
